@@ -72,12 +72,23 @@ def _item_trait(vspec):
     raise AssertionError(vspec)
 
 
-def _list_class(vspec, lo, hi):
-    key = (vspec, lo, hi)
+def _falsy(case):
+    """half of the cases run on an owner that is alive but FALSY (a HasTraits class defining __bool__ / __len__):
+    nothing in the statement depends on the owner's truth value"""
+    import zlib
+    return zlib.crc32(case.encode()) % 2 == 0
+
+
+def _list_class(vspec, lo, hi, falsy=False):
+    key = (vspec, lo, hi, falsy)
     if key not in _classes:
         from traits.api import HasTraits, List
         item, counter = _item_trait(vspec)
-        cls = type("A", (HasTraits,), {"x": List(item, minlen=lo, maxlen=hi)})
+        ns = {"x": List(item, minlen=lo, maxlen=hi)}
+        if falsy:
+            ns["__bool__"] = lambda self: False
+            ns["__len__"] = lambda self: 0
+        cls = type("A", (HasTraits,), ns)
         _classes[key] = (cls, counter)
     return _classes[key]
 
@@ -379,9 +390,10 @@ def run_impl(case):
     kind, vspec, init, ops = case.split("|")
     _, lo, hi = kind.split(":")
     lo, hi = int(lo), int(hi)
-    cls, counter = _list_class(vspec, lo, hi)
+    cls, counter = _list_class(vspec, lo, hi, _falsy(case))
     init = S.parse_list(init)
     tags, hits, outs = set(), [], []
+    tags.add("owner:falsy" if _falsy(case) else "owner:truthy")
     events = []
     del LAST_FIRED[:]
     kfail = int(vspec.split(":")[1]) if vspec.startswith("failk") else None
@@ -454,8 +466,14 @@ def run_impl(case):
 _nested_cls = {}
 
 
-def nested_class(failk=None):
+def nested_class(failk=None, falsy=False):
     """failk = (k, exc-name): every leaf trait additionally raises on its k-th call within an operation."""
+    if falsy:
+        key = ("falsy", failk)
+        if key not in _nested_cls:
+            base, counter = nested_class(failk)
+            _nested_cls[key] = (type("NF", (base,), {"__bool__": lambda self: False, "__len__": lambda self: 0}), counter)
+        return _nested_cls[key]
     if failk not in _nested_cls:
         from traits.api import HasTraits, List, Dict, Set, Str, Range, CInt
         counter = [0]
@@ -564,9 +582,10 @@ def random_nested_case(rng):
                     "iadd": [lst()], "imul": [rng.choice([0, 1, 2, 3])], "pop": [rng.randint(-1, 1)]}[m]
             ops.append([["ll", rng.randint(0, 2)], m, args])
         elif t == "dl":
-            m = rng.choice(["dsetitem", "update", "ior", "setdefault", "dpop", "popitem", "delitem", "clear"])
+            m = rng.choice(["dsetitem", "update", "update", "updatekw", "ior", "setdefault", "dpop", "popitem", "delitem", "clear"])
             key = lambda: rng.choice(["a", "b", "c", 3])  # noqa: E731
             args = {"dsetitem": [key(), lst()], "update": [[[key(), lst()] for _ in range(rng.randint(0, 3))]], "ior": [[[key(), lst()] for _ in range(rng.randint(0, 2))]],
+                    "updatekw": [[[key(), lst()] for _ in range(rng.randint(1, 2))]],
                     "setdefault": [key(), lst()], "dpop": [key()], "popitem": [], "delitem": [key()], "clear": []}[m]
             ops.append([["dl"], m, args])
         elif t == "dli":
@@ -586,9 +605,10 @@ def random_nested_case(rng):
                 args = args + [rng.choice(["frozenset", "tuple", "gen", "set"])]
             ops.append([["st"], m, args])
         elif t == "dc":
-            m = rng.choice(["dsetitem", "update", "ior", "setdefault", "dpop", "popitem", "clear"])
+            m = rng.choice(["dsetitem", "update", "update", "updatekw", "ior", "setdefault", "dpop", "popitem", "clear"])
             key = lambda: rng.choice([1, 2, "3", "x", 2.0])  # noqa: E731
             args = {"dsetitem": [key(), leaf()], "update": [[[key(), leaf()] for _ in range(rng.randint(0, 3))]], "ior": [[[key(), leaf()] for _ in range(rng.randint(0, 2))]],
+                    "updatekw": [[[key(), leaf()] for _ in range(rng.randint(1, 2))]],
                     "setdefault": [key(), leaf()], "dpop": [key()], "popitem": [], "clear": []}[m]
             ops.append([["dc"], m, args])
         else:
@@ -658,6 +678,8 @@ def _apply_nested(obj, path, m, args):
         getattr(target, m)(*[mk(a) for a in args[:-1]])
     elif m == "update" and path[0] in ("dl", "dc"):
         target.update([(k, v) for k, v in args[0]])
+    elif m == "updatekw":            # d.update(name=value, ...): dict accepts it, TraitDict documents one positional argument
+        target.update(**{str(k): v for k, v in args[0]})
     elif m in ("dpop", "spop"):
         target.pop(*args)
     else:
@@ -673,7 +695,7 @@ def _operand(args):
 
 def run_nested(case):
     fk = tuple(case["failk"]) if case.get("failk") else None
-    cls, counter = nested_class(fk)
+    cls, counter = nested_class(fk, falsy=_falsy(json.dumps(case, sort_keys=True)))
     del LAST_FIRED[:]
     counter[0] = -10 ** 6     # setup never fails
     obj = cls()
